@@ -67,7 +67,8 @@ PROPS = {
                       'iterator/lastTransaction against the model; iterator(start, stop) for every pair of tid '
                       'boundaries, also with a transaction voted but unfinished and through a read-only open of a '
                       'copy with a torn tail; after abort; after close+reopen with and without index file; tid '
-                      'monotonicity with clock behind the data'},
+                      'monotonicity with clock behind the data; the first 6 (thorough: 42) histories also on a '
+                      'MappingStorage with the same queries after every commit'},
         ],
         'text': 'FileStorage load/loadSerial/loadBefore/getTid/_loadBack_impl are proved, for all oids, tids and '
                 'file contents satisfying the representation invariant, to return exactly the revision the '
@@ -79,10 +80,12 @@ PROPS = {
                 'read_index proved to rebuild the index as "every oid -> its LAST record below the committed end" '
                 '(nested-loop invariant over the record tiling); MappingStorage.loadBefore and DemoStorage.loadBefore proved '
                 'against ordered-map / two-layer models (greatest revision strictly below the bound, least one at or above '
-                'as end); FileIterator._scan_forward/_scan_backward proved to stop at the first transaction with tid >= start.',
+                'as end); MappingStorage.getTid (newest revision) and loadSerial (exactly the revision with that tid, else '
+                'POSKeyError) proved against the same ordered-map model; FileIterator._scan_forward/_scan_backward proved '
+                'to stop at the first transaction with tid >= start.',
         'note': 'RI (chains) is assumed by the query contracts; its preservation by finish is argued by lemma over '
-                'the store/vote/finish postconditions only in part; the record iterator, history/undoLog, the other '
-                'MappingStorage queries and (quick tier) the index rebuilt by read_index are covered by the bounded stand-in only.',
+                'the store/vote/finish postconditions only in part; the record iterator, history/undoLog, '
+                'MappingStorage.history/iterator/tpc_finish and (quick tier) the index rebuilt by read_index are covered by the bounded stand-in only.',
         'design_ref': 'DESIGN.md section 5 C04',
     },
     'C01': {
@@ -149,8 +152,9 @@ PROPS = {
                 'Connection.readCurrent proved to record the oid with the serial the connection holds; '
                 'BaseStorage.checkCurrentSerialInTransaction proved to return normally only if the committed tid equals the '
                 'serial read (else ReadConflictError naming both); MappingStorage.store proved to accept only a new object '
-                'or the newest tid as serial (ordered-map model of its BTrees).',
-        'note': 'DemoStorage.store: proved under C16. getTid of MappingStorage/DemoStorage (A-GETTID): bounded only. '
+                'or the newest tid as serial (ordered-map model of its BTrees); MappingStorage.getTid proved to return the tid of '
+                'the newest revision.',
+        'note': 'DemoStorage.store: proved under C16. getTid of DemoStorage (A-GETTID): bounded only. '
                 'Schedules beyond lock ownership not explored.',
         'design_ref': 'DESIGN.md section 5 C03',
     },
